@@ -57,7 +57,7 @@ std::vector<double> GenerateStochasticDistribution (std::vector<double> mesh_x, 
     {
     if (mesh_x[i]<100)
       {
-      mesh_x_sto[i] = std::poisson_distribution<int>(mesh_x[i])(rng);
+      mesh_x_sto[i] = (mesh_x[i] > 0) ? std::poisson_distribution<int>(mesh_x[i])(rng) : 0;
       }
     else
       {
@@ -242,7 +242,7 @@ extern "C" int engineexport_initialize_grid (
       mesh_x.resize(n_meshes*n_species);
       for(size_t i=0; i<mesh_x.size(); i++)
         {
-        mesh_x[i] = static_cast<double>(std::poisson_distribution<int>(mesh_state_mf[i])(rng));
+        mesh_x[i] = (mesh_state_mf[i] > 0) ? static_cast<double>(std::poisson_distribution<int>(mesh_state_mf[i])(rng)) : 0.0;
         }
       }
     else if(CompareStr(init_state_processing, "floor"))
@@ -374,7 +374,7 @@ extern "C" int engineexport_initialize_graph (
       mesh_x.resize(n_meshes*n_species);
       for(size_t i=0; i<mesh_x.size(); i++)
         {
-        mesh_x[i] = static_cast<double>(std::poisson_distribution<int>(mesh_state_mf[i])(rng));
+        mesh_x[i] = (mesh_state_mf[i] > 0) ? static_cast<double>(std::poisson_distribution<int>(mesh_state_mf[i])(rng)) : 0.0;
         }
       }
     else if(CompareStr(init_state_processing, "floor"))
